@@ -208,6 +208,24 @@ def hardAll : Nat → List Cell → Lines
 
 def hardLines (cells : List Cell) : Lines := hardAll (cells.length + 1) cells
 
+/-! ### text.hardLines (the lines of a `Text` that is not soft-wrapped; /repo 3fa26b1, finding F616) -/
+
+/-- The loop of `hardLines(s)` over the grapheme clusters of `s` (`cur` = the clusters since `start`):
+```
+for len(rest) > 0 {
+    cluster, rest, _, state = uniseg.FirstGraphemeClusterInString(rest, state)
+    if uniseg.HasTrailingLineBreakInString(cluster) { lines = append(lines, s[start:pos]); start = pos + len(cluster) }
+    pos += len(cluster)
+}
+if start < len(s) { lines = append(lines, s[start:]) }
+```
+`nl` is the cluster test (`HasTrailingLineBreakInString`, the one `HardwrapScanner` uses). -/
+def textHardLoop : List Cell → List Cell → List (List Cell)
+  | cur, [] => if cur.isEmpty then [] else [cur]
+  | cur, c :: cs => if c.nl then cur :: textHardLoop [] cs else textHardLoop (cur ++ [c]) cs
+
+def textHardLines (cells : List Cell) : List (List Cell) := textHardLoop [] cells
+
 /-! ### The row loops of `Text.drawSoftwrap` / `RichText.drawSoftwrap` and `findContainerSize` -/
 
 /-- `for _, char := range chars { if col >= Max.Width { break }; WriteCell(col,row,cell); col += uint16(char.Width) }`:
